@@ -1,7 +1,7 @@
 """Obligations shared by C01 / C02 / C03 / C19: the graph-rewriting carriers under the sidecar contracts of contracts/graph.py."""
 import z3
 from vlib import core, pyvc
-from contracts import graph, performer, names, signature
+from contracts import graph, performer, names, signature, tensorinfo
 from replay import graph_native
 
 TU, DI, QI, QT = 'transformations/transformation_utils.py', 'transformations/dequant_insert.py', 'transformations/quant_insert.py', 'transformations/quantize_tensor.py'
@@ -33,6 +33,54 @@ def insert_obligations(rep, prop, exclude=()):
         obs += pyvc.verify(rep, prop, core.Fn(rel, qual), spec, select=sel, exclude=exclude,
                            replay=lambda mv, label, kind=kind: graph_native.replay_insert(kind, mv),
                            fallback=lambda label, kind=kind: _search(kind, label))
+    return obs
+
+# ------------------------------------------------------------------------------------------------ graph facts every instruction is built from (DESIGN A.8)
+TIG = 'transformation_instruction_generator.py'; TIG_Q = 'TransformationInstructionsGenerator._tensor_info_generator'
+def _ti_native(case):
+    """the REAL generator on a small subgraph (ops = [(inputs, outputs)], n tensors, graph outputs) against the A.8 contract, natively"""
+    import types, importlib
+    core.stub_package(); g = importlib.import_module('ai_edge_quantizer.transformation_instruction_generator')
+    NS = types.SimpleNamespace; nt = case['n_tensors']
+    sg = NS(tensors=[NS(name=('t%d' % k).encode()) for k in range(nt)], operators=[NS(inputs=list(i), outputs=list(o)) for i, o in case['ops']], outputs=list(case['outputs']))
+    self_ = NS(TensorGraphInfo=g.TransformationInstructionsGenerator.TensorGraphInfo)
+    try: recs = list(g.TransformationInstructionsGenerator._tensor_info_generator(self_, case.get('subgraph_id', 3), sg))
+    except Exception as e: return dict(confirmed=True, inputs=case, violated=[f'raised {type(e).__name__}: {e}'])
+    bad = []
+    if len(recs) != nt: bad.append(f'{len(recs)} records for {nt} tensors')
+    for t, (name, info) in enumerate(recs[:nt]):
+        prod = next((j for j, (i, o) in enumerate(case['ops']) if t in o), -1)
+        cons = ([-1] if t in case['outputs'] else []) + [j for j, (i, o) in enumerate(case['ops']) if t in i]
+        if name != 't%d' % t or info.tensor_id != t or info.subgraph_id != case.get('subgraph_id', 3): bad.append(f'record {t}: name / tensor_id / subgraph_id wrong ({name}, {info.tensor_id}, {info.subgraph_id})')
+        if info.producer != prod: bad.append(f'tensor {t}: producer {info.producer}, expected the first operator that outputs it: {prod}')
+        if list(info.consumers) != cons: bad.append(f'tensor {t}: consumers {list(info.consumers)}, expected {cons} (marker first, then each reader once in ascending order)')
+    return dict(confirmed=bool(bad), inputs=case, violated=bad)
+def _ti_search(label=None):
+    import itertools
+    for nt in (1, 2, 3):
+        sets = [list(c) for r in range(0, 3) for c in itertools.product(range(nt), repeat=r)]
+        for n_ops in (0, 1, 2):
+            for ops in itertools.product([(i, o) for i in sets for o in sets if len(o) <= 1], repeat=n_ops):
+                for outs in ([], [0], [nt - 1], [nt - 1, 0]):
+                    r = _ti_native(dict(n_tensors=nt, ops=[(list(i), list(o)) for i, o in ops], outputs=outs))
+                    if r['confirmed']: return r
+    return None
+TI_CANARIES = [('_tensor_info_generator: producer = LAST operator that outputs the tensor (break dropped)', "          producer = op_id\n          break\n", "          producer = op_id\n"),
+               ('_tensor_info_generator: graph-output marker appended instead of put first', "        consumers.insert(0, -1)", "        consumers.append(-1)"),
+               ('_tensor_info_generator: readers collected from op.outputs', "          if tensor_id in op.inputs\n", "          if tensor_id in op.outputs\n"),
+               ('_tensor_info_generator: record carries the operator count instead of the subgraph id', "          tensor_id, subgraph_id, producer, consumers", "          tensor_id, len(subgraph.operators), producer, consumers")]
+def tensorinfo_obligations(rep, prop):
+    """every instruction's (producer, consumers, graph-output marker) comes from this generator: InstValid, the precondition of insert_* and of the performer"""
+    obs = pyvc.verify(rep, prop, core.Fn(TIG, TIG_Q), tensorinfo.TensorInfoGenerator(), select=None, replay=lambda mv, label: _ti_search(label) or dict(confirmed=False, inputs=mv), fallback=_ti_search)
+    src = core.read_source(TIG)
+    sel = TI_CANARIES if rep.tier == 'thorough' else [TI_CANARIES[(rep.seed + k) % len(TI_CANARIES)] for k in (0, 1)]
+    for name, a, b in sel:
+        if a not in src: rep.canary(name, False, 'mutation site not found (stale canary)'); continue
+        try:
+            E = pyvc.run_function(core.Fn(TIG, TIG_Q, src_override=src.replace(a, b)), tensorinfo.TensorInfoGenerator())
+            E.obs = [ob for ob in E.obs if ob.label.startswith(('return:', 'loop'))]
+            bad = [ob.label for ob, st, dt, det, mv in pyvc.decide_parallel(E, E.spec, timeout=10000, canary=True) if st != 'proved']; rep.canary(name, bool(bad), str(bad[:3]))
+        except pyvc.Unsupported as e: rep.canary(name, True, str(e))
     return obs
 
 PERF = 'transformation_performer.py'
@@ -88,7 +136,7 @@ def performer_canaries(rep):
         if a not in src: rep.canary(name, False, 'mutation site not found (stale canary)'); continue
         try:
             E = pyvc.run_function(core.Fn(PERF, qual, src_override=src.replace(a, b)), spec)
-            res = pyvc.decide_parallel(E, spec, timeout=20000); bad = [ob.label for ob, st, dt, det, mv in res if st != 'proved']
+            res = pyvc.decide_parallel(E, spec, timeout=20000, canary=True); bad = [ob.label for ob, st, dt, det, mv in res if st != 'proved']
             rep.canary(name, bool(bad), str(bad[:4]))
         except pyvc.Unsupported as e: rep.canary(name, True, f'mutant leaves the engine subset: {e}')
 def e2e_standin(rep, prop, sampled3=0):
@@ -141,7 +189,7 @@ def names_obligations(rep, prop):
     if a in src:
         try:
             E = pyvc.run_function(core.Fn('params_generator.py', 'ParamsGenerator._check_tensor_names_are_unique', src_override=src.replace(a, '        pass')), names.NamesUnique())
-            bad = [ob.label for ob, st, dt, det, mv in pyvc.decide_parallel(E, E.spec, timeout=20000) if st != 'proved']; rep.canary('_check_tensor_names_are_unique: names never recorded', bool(bad), str(bad[:3]))
+            bad = [ob.label for ob, st, dt, det, mv in pyvc.decide_parallel(E, E.spec, timeout=20000, canary=True) if st != 'proved']; rep.canary('_check_tensor_names_are_unique: names never recorded', bool(bad), str(bad[:3]))
         except pyvc.Unsupported as e: rep.canary('_check_tensor_names_are_unique: names never recorded', True, str(e))
     else: rep.canary('_check_tensor_names_are_unique: names never recorded', False, 'mutation site not found (stale canary)')
     return obs
@@ -171,6 +219,11 @@ def _sig_search(label):
             for outs in itertools.permutations(old + [7], 2):
                 r = _sig_native(dict(signatures=[dict(subgraphIndex=0, outputs=list(outs))], old_outputs=[old], new_outputs=[list(new)]))
                 if r['confirmed']: return r
+    # several subgraphs: signatures listed in another order than the subgraphs, two signatures on one subgraph, more signatures than subgraphs
+    for sig_sgs in ([1, 0], [0, 0], [1, 1, 0], [0, 1]):
+        old = [[5], [3, 4]]; new = [[8], [3, 9]]
+        r = _sig_native(dict(signatures=[dict(subgraphIndex=g, outputs=list(reversed(old[g]))) for g in sig_sgs], old_outputs=old, new_outputs=new))
+        if r['confirmed']: return r
     return None
 def signature_obligations(rep, prop):
     obs = pyvc.verify(rep, prop, core.Fn(PERF, 'TransformationPerformer._remap_signature_outputs'), signature.RemapSignatureOutputs(), select=None,
@@ -180,7 +233,7 @@ def signature_obligations(rep, prop):
     if a in src:
         try:
             E = pyvc.run_function(core.Fn(PERF, 'TransformationPerformer._remap_signature_outputs', src_override=src.replace(a, "            tensor_map.tensorIndex = new_outputs[output_index]")), signature.RemapSignatureOutputs())
-            bad = [ob.label for ob, st, dt, det, mv in pyvc.decide_parallel(E, E.spec, timeout=20000) if st != 'proved']; rep.canary(name, bool(bad), str(bad[:3]))
+            bad = [ob.label for ob, st, dt, det, mv in pyvc.decide_parallel(E, E.spec, timeout=20000, canary=True) if st != 'proved']; rep.canary(name, bool(bad), str(bad[:3]))
         except pyvc.Unsupported as e: rep.canary(name, True, str(e))
     else: rep.canary(name, False, 'mutation site not found (stale canary)')
     return obs
@@ -224,7 +277,7 @@ def canaries(rep, exclude=()):
         try:
             E = pyvc.run_function(fn, graph.Insert(kind))
             E.obs = [ob for ob in E.obs if ob.label.startswith(('return:', 'loop'))]   # postconditions and loop invariants are where a body mutation must show
-            res = pyvc.decide_parallel(E, E.spec, exclude=exclude, timeout=20000)
+            res = pyvc.decide_parallel(E, E.spec, exclude=exclude, timeout=20000, canary=True)
             bad = [ob.label for ob, st, dt, det, mv in res if st != 'proved']
             rep.canary(name, bool(bad), str(bad[:4]))
         except pyvc.Unsupported as e:
